@@ -398,6 +398,13 @@ def shard_regs(sh):
             prog = b1 + [("set", [Q(e), i5])] + b2 + [("add", [R(3), R(3), R(5)]), ("h", [Q(e)])]
             check_program("regs-live-third-register", prog, "set", part, alloc=alloc, inits=inits)
             count(part, "skeleton/live-third-register")
+        # the same with the third register written by `load` only (never by `set`) before the two-qubit gate
+        for idx in (1, 2, 0):
+            if idx in (i3, i4) or (g1, i1, i2) != (gates[0][0], ids1[0][0], ids1[0][1]):
+                continue
+            prog = [("set", [R(7), idx]), ("load", [Q(e), ("entry", 0, R(7))])] + b2 + [("add", [R(3), R(3), R(5)]), ("h", [Q(e)])]
+            check_program("regs-live-loaded-register", prog, "set", part, alloc=alloc, inits=inits)
+            count(part, "skeleton/live-loaded-register")
     if (a, b, c, d) == (0, 1, 1, 2):
         add_sample(part, {"skeleton": "regs-straight", "program": skeletons(
             [("set", [Q(0), 1]), ("set", [Q(1), 2]), ("cnot", [Q(0), Q(1)])], [("set", [Q(1), 2]), ("set", [Q(2), 3]), ("cphase", [Q(1), Q(2)])])["straight"]})
@@ -418,6 +425,7 @@ def run(ctx):
     ctx.pmap(_dispatch, shards)
     ctx.require("skeleton/other-registers", 36 * 8 * 3)
     ctx.require("skeleton/live-third-register", 36 * 8)
+    ctx.require("skeleton/live-loaded-register", 36 * 2)
     for sk in ("straight", "if-skipped", "if-taken", "loop2", "loop2-exit-at-end", "branch-to-end", "if-in-loop", "measure-then-if", "mov"):
         ctx.require(f"skeleton/{sk}", 1)
     for g in ("h", "x", "t", "rot_y", "cnot", "cphase"):
